@@ -118,6 +118,9 @@ class C12(Check):
             'cell that needs quoting, is missing or is written in a non-default variant; member counts are in counters.')
     ASSUMPTIONS = [
         'oracle for byte delivery is str.splitlines() of the whole text (chunk=None: the text itself); only LF and CRLF terminators are in the alphabet',
+        'texts holding VT FF FS GS RS NEL LS PS (boundaries only str.splitlines knows): only chunk-independence is demanded there (every chunk size and encoding gives the lines of the one-piece read), not a particular splitter',
+        'DiskSink lines never hold CR or LF (a lone CR inside a written line is read back as a line break by the text layer; outside the alphabet); lines holding the eight other boundary characters must come back as ONE line',
+        'tables with U+2028 inside a (quoted or unquoted) value are also read through a real file: CsvSource(path)/ArffSource(path), plain and .gz; a failure that the reader shows on the bare lines too is keyed as the reader finding',
         'deflate payloads are raw deflate streams (what coba decodes); zlib-wrapped deflate is not fed',
         'DiskSink/DiskSource: locale encoding is UTF-8 on this machine (DiskSource opens without an explicit encoding; not varied)',
         'common dialect = weka.core.Utils.quote / Instances.toString for ARFF, csv.writer-style minimal quoting for CSV, "label[,label] idx:val" for LibSVM/Manik; these must parse exactly',
@@ -387,6 +390,13 @@ class C12(Check):
         if res is None:
             acc.outcome(d['fmt'] + ' file same table'); return False
         sig = res[:2]
+        # the same table failing the same way when the reader is fed the lines directly is the reader's finding, not the file path's
+        if d['fmt'].startswith('csv'):
+            dm = {'header': d['fmt'] == 'csvh', 'v': [], 'names': d['names'], 'rows': d['rows']}
+            if (self._csv_eval(dm) or (None, None))[:2] == sig: return self._csv_one(dm, acc)
+        else:
+            dm = {'sparse': d['fmt'] == 'arff-sparse', 'v': [], 'cols': [{'name': n, 'kind': 'string'} for n in d['names']], 'rows': d['rows']}
+            if (self._arff_eval(dm) or (None, None))[:2] == sig: return self._arff_one(dm, acc)
         small = shrink(d, self._file_candidates, lambda c: (self._file_eval(c) or (None, None))[:2], sig)
         mode = ('rejects common dialect: ' + sig[1]) if sig[0] == 'reject' else sig[1]
         feat = ' + '.join((['.gz'] if small['gz'] else []) + sorted({F.vclass(x) for r in small['rows'] for x in r if F.vclass(x) != 'plain'})) or 'any table'
